@@ -26,7 +26,8 @@ VERSION_ERRORS = ('CIMVersionError', 'DTDVersionError', 'ProtocolVersionError')
 def case_json(c):
     return {'op': c['op'], 'labels': c['labels'], 'status': c['status'], 'reason': c['reason'],
             'headers': c['headers'], 'body_b64': base64.b64encode(c['body']).decode('ascii'),
-            'transport_exc': c.get('transport_exc')}
+            'transport_exc': c.get('transport_exc'), 'opts': c.get('opts'), 'bodyfault': c.get('bodyfault'),
+            'sockfault': c.get('sockfault')}
 
 
 def _site(e):
@@ -156,9 +157,20 @@ def eval_real(c):
         exc = L.transport_exceptions()[c['transport_exc']]
     import sys
     old = sys.getrecursionlimit()
-    out, r, conn = L.run_real(op, c['status'], c['reason'], c['headers'], c['body'], exc=exc)
+    if c.get('sockfault') is not None:
+        out, r, conn = L.run_socket_fault(op, dict(L.socket_faults())[c['sockfault']], opts=c.get('opts'))
+    else:
+        body = c['body']
+        if c.get('bodyfault') is not None:
+            body = L.BodyFault(c['bodyfault'], c['body'])
+        out, r, conn = L.run_real(op, c['status'], c['reason'], c['headers'], body, exc=exc, opts=c.get('opts'))
     sys.setrecursionlimit(old)
     rec = {'out': out, 'viol': None}
+    srt = conn.last_server_response_time
+    if srt is not None and not isinstance(srt, float):
+        # documented: "the server response time in seconds (float) ... or None"
+        rec['viol'] = ({'kind': 'undocumented_attribute', 'attr': 'last_server_response_time', 'type': type(srt).__name__},
+                       {'value': repr(srt)[:100]})
     if 'exc' in out:
         cls = out['exc']
         rec['cls'] = cls
@@ -168,6 +180,9 @@ def eval_real(c):
         if not L.documented_error(r):
             rec['viol'] = ({'kind': 'undocumented_exception', 'exc': cls, 'site': _site(r)},
                            {'exc': repr(r)[:400]})
+            if type(r).__module__.split('.')[0] not in ('builtins',):
+                # e.g. requests.exceptions.ConnectionError must not be taken for pywbem.ConnectionError
+                rec['out'] = {'exc': type(r).__module__ + '.' + cls}
         elif isinstance(r, pywbem.ParseError):
             rec['req'] = r.request_data is not None
             rec['resp'] = r.response_data is not None
@@ -214,7 +229,7 @@ def sax_tree(body):
     import pywbem
     try:
         return xml_to_tupletree_sax(body, 'c02')
-    except pywbem.XMLParseError:
+    except Exception:  # noqa: XMLParseError, or whatever a broken SAX layer lets escape (the oracle reports that)
         return None
 
 
@@ -269,6 +284,17 @@ def tt_json_iter(tt):
 
 def model_request(c):
     op = L.op_by_name(c['op'])
+    if c.get('sockfault') is not None:
+        return None                       # real socket: oracle only
+    if c.get('bodyfault') is not None:
+        # requests maps what urllib3 raises while the body is read: SSLError -> SSLError, anything else ->
+        # ChunkedEncodingError / ContentDecodingError / ConnectionError, each with the urllib3 exception as args[0]
+        e = L.BodyFault(c['bodyfault']).exc()
+        a0 = e.args[0] if e.args and isinstance(e.args[0], str) else (str(e.args[0]) if e.args else None)
+        return {'op': 'transport', 'codec': Tables2().to_json(),
+                'exc': {'lib': 'requests', 'kind': 'ssl' if c['bodyfault'] == 'ssl' else 'other',
+                        'arg': {'t': 'u3', 'e': {'isMaxRetry': False, 'className': cimproto.cps(type(e).__name__),
+                                                 'arg0': cimproto.ocps(a0)}}}}
     if c.get('transport_exc') is not None:
         T = Tables2()
         d = L.describe_transport_exc(L.transport_exceptions()[c['transport_exc']], T)
@@ -292,7 +318,12 @@ def gen_cases(run, scale):
     ops = L.ops()
     cases = []
 
+    OPTS = [None, None, None, None, None, None, {'stats': True}, {'stats': True}, {'debug': True},
+            {'stats': True, 'debug': True}]
+
     def add(op, labels, body, status=200, reason='OK', headers=None, **kw):
+        if 'opts' not in kw:
+            kw['opts'] = r.choice(OPTS)         # connection options: statistics / debug enabled for 40 % of the cases
         cases.append(dict(op=op.name, labels=labels, status=status, reason=reason,
                           headers=dict(L.XML_HDR if headers is None else headers), body=body, **kw))
 
@@ -428,6 +459,47 @@ def gen_cases(run, scale):
                             kids.append(L.paramvalue('QueryResultClass', None, L.obj_tree(pywbem.CIMClass('C'))))
                         add(op, ['session:ctx:%s' % (ck[0] if ck else 'none')],
                             L.ser(L.build_response(op, kids)).encode('utf-8'))
+    # directed: WBEMServerResponseTime header values x statistics enabled / disabled (the value feeds the statistics)
+    for op in r.sample(ops, 5):
+        vbody = L.ser(L.build_response(op, op.valid(g))).encode('utf-8')
+        for val in ('abc', '12,5', '', ' ', '1e3', 'nan', 'inf', '-1', '0x10', '\u0661\u0662', '1_0', '12 34', '{0}', '1e999'):
+            for o in ({'stats': True}, None, {'stats': True, 'debug': True}):
+                h = dict(L.XML_HDR)
+                h['WBEMServerResponseTime'] = val
+                add(op, ['http:srt:directed'], vbody, headers=h, opts=o)
+    # directed: XML declarations naming every kind of codec (unknown, multi-byte, non-text, stateful, EBCDIC, ...)
+    for op in r.sample(ops, 3):
+        vbody = L.ser(L.build_response(op, op.valid(g))).encode('utf-8')
+        for enc in L.DECL_ENCODINGS:
+            add(op, ['bytes:decl_encoding:' + enc[:12]], ('<?xml version="1.0" encoding="%s"?>' % enc).encode('ascii') + vbody)
+            add(op, ['bytes:decl_encoding_sq:' + enc[:12]], ("<?xml version='1.0' encoding='%s' ?>\n" % enc).encode('ascii') + vbody)
+    # directed: PARAMVALUE elements named like the response elements, at every position, with and without the
+    # real element next to them (extrinsic, intrinsic with / without output parameters, export)
+    for op in (im, L.op_by_name('InvokeMethod:class'), gi, L.op_by_name('OpenEnumerateInstances'),
+               L.op_by_name('PullInstancePaths'), L.op_by_name('ExportIndication'), L.op_by_name('DeleteInstance')):
+        base_variants = [[], None]
+        for nm in L.ELEMENT_LIKE_NAMES:
+            for ptype, kid in ((None, None), ('string', L.value('x')), ('uint8', L.value('1')), ('boolean', L.value('TRUE')),
+                               (None, L.obj_tree(L._inst(g)))):
+                pv = L.paramvalue(nm, ptype, kid)
+                for base in base_variants:
+                    kids0 = [] if base is not None else op.valid(g)
+                    for pos in sorted(set([0, len(kids0)])):
+                        kids = [copy.deepcopy(k) for k in kids0]
+                        kids.insert(pos, copy.deepcopy(pv))
+                        add(op, ['paramvalue_named:%s@%d' % (nm, pos)], L.ser(L.build_response(op, kids)).encode('utf-8'))
+    # faults after the status line and the headers: (a) scripted adapter whose body stream raises what urllib3 raises,
+    # (b) a real loopback socket server writing damaged responses (content-encoding, content-length, chunking)
+    for op in r.sample(ops, 4):
+        vbody = L.ser(L.build_response(op, op.valid(g))).encode('utf-8')
+        for kind in L.BODY_FAULT_KINDS:
+            for st in (200, 401, 500):
+                for first in (b'', vbody[:len(vbody) // 2]):
+                    add(op, ['bodyfault:' + kind], first, status=st, reason='R', bodyfault=kind)
+    for op in (L.op_by_name('EnumerateInstanceNames'), L.op_by_name('IterEnumerateInstancePaths:pull'), L.op_by_name('DeleteInstance')):
+        for lab, _raw in L.socket_faults():
+            for o in (None, {'stats': True}):
+                add(op, ['socket:' + lab], b'', sockfault=lab, opts=o)
     # transport exceptions: synthetic requests / urllib3 exceptions (Model/Transport.lean: wbemRequest)
     for i in range(len(L.transport_exceptions())):
         add(r.choice(ops), ['transport'], b'', transport_exc=i)
@@ -492,7 +564,9 @@ def run(run):
                 'position), byte-level damage (truncation, ill-formed UTF-8, illegal XML characters, XML declarations '
                 'with odd encodings, UTF-16/Latin-1 re-encoding, junk, bit flips), HTTP variants (status, 401 with '
                 'WWW-Authenticate forms, Content-type, WBEMServerResponseTime, CIMError/PGErrorDetail), an echoed '
-                'request, synthetic transport exceptions, deep nesting and entity expansion; non-trivial = response '
+                'request, synthetic transport exceptions, faults after the headers (failing body stream; a real loopback socket '
+                'server with damaged content-encoding / content-length / chunking), connection options (statistics, debug) '
+                'on 40 %% of the cases, deep nesting and entity expansion; non-trivial = response '
                 'differs from a valid one; distinct by (operation, status, headers, body)' % len(L.ops()))
     run.assumptions += [
         'XmlSyntax: the element-level behaviour of expat/xml.sax (tree or SAXParseException) is not modelled; the model '
@@ -509,7 +583,8 @@ def run(run):
             raise RuntimeError('harness crash on case %s: %s' % (c['labels'], rec['crash']))
     # model side (transport cases have no model counterpart)
     mcases = [(c, rec) for c, rec in zip(cases, reals)
-              if not L.op_by_name(c['op']).flags.get('oracle_only') or c.get('transport_exc') is not None]
+              if not L.op_by_name(c['op']).flags.get('oracle_only') or c.get('transport_exc') is not None
+              or c.get('bodyfault') is not None]
     reqs = common.pmap(_mreq, [c for c, _ in mcases], chunksize=16)
     known = common.load_known_all()
     keep = [i for i, q in enumerate(reqs) if q is not None]
@@ -523,7 +598,8 @@ def run(run):
             run.disagree(case_json(c), ans.get('convMismatch'), 0,
                          'truncF64 / floatOverflows (concrete int(float), float(int) overflow) vs CPython on the run tables')
         deep = input_class(c['labels']) == 'deep_nesting'
-        m = ans.get('out', ans) if c.get('transport_exc') is not None else model_summary(op, ans.get('out', ans))
+        m = ans.get('out', ans) if (c.get('transport_exc') is not None or c.get('bodyfault') is not None) \
+            else model_summary(op, ans.get('out', ans))
         real = rec['out']
         if 'ok' in real and op.flags.get('iter') and real['ok'].get('k') == 'items':
             pass
@@ -600,7 +676,8 @@ def run(run):
     # statistics + oracle
     seen = set()
     for c, rec in zip(cases, reals):
-        key = (c['op'], c['status'], json.dumps(c['headers'], sort_keys=True), c['body'])
+        key = (c['op'], c['status'], json.dumps(c['headers'], sort_keys=True), c['body'], c.get('sockfault'),
+               c.get('bodyfault'), json.dumps(c.get('opts'), sort_keys=True), c.get('transport_exc'))
         nontrivial = c['labels'] != ['valid'] and key not in seen
         seen.add(key)
         run.case({'op': c['op'], 'labels': c['labels'], 'outcome': rec['out'].get('exc', 'ok')}, nontrivial=nontrivial)
@@ -638,7 +715,8 @@ def search(run):
 def replay(payload):
     c = payload['case']
     case = dict(op=c['op'], labels=c['labels'], status=c['status'], reason=c['reason'], headers=c['headers'],
-                body=base64.b64decode(c['body_b64']), transport_exc=c.get('transport_exc'))
+                body=base64.b64decode(c['body_b64']), transport_exc=c.get('transport_exc'), opts=c.get('opts'),
+                bodyfault=c.get('bodyfault'), sockfault=c.get('sockfault'))
     rec = eval_real(case)
     if rec['viol'] is not None:
         return False, 'property C02 FAILS for this response: %s\n%s' % (json.dumps(rec['viol'][0]), json.dumps(rec['viol'][1]))
